@@ -3,7 +3,8 @@ package main
 // group "cfgtimeout" (C11, "a timeout of zero or less means the user asked to wait
 // indefinitely"): the REAL handshake in-process (client sendAction, server recvAction +
 // sendConfig, client recvConfig over two pipes) for every timeout of a small ladder around
-// zero x the other members of the CFG record; the timeout both ends work with afterwards,
+// zero x the other members of the CFG record (and the same two lines through the real relay
+// handshake for a client behind a jump host); the timeout both ends work with afterwards,
 // whether getNewTimeout arms a timer on either end and whether the record carried the member,
 // vs the extracted model run on the shape regenerated from the source.
 //
@@ -68,7 +69,15 @@ func genCfgTimeout(c *ctx) {
 	parallelDo(len(all), 16, func(i int) { res[i] = trzsz.VerifCfgHandshake(all[i]) })
 	for i, a := range all {
 		r := res[i]
-		out := fmt.Sprintf("srv=%d;cli=%d;srvarmed=%s;cliarmed=%s;key=%s", r.ServerTimeout, r.ClientTimeout, c11b(r.ServerArmed), c11b(r.ClientArmed), c11b(r.HasKey))
+		out := fmt.Sprintf("srv=%d;cli=%d;srvarmed=%s;cliarmed=%s;key=%s;relaycli=%d;relayarmed=%s", r.ServerTimeout, r.ClientTimeout,
+			c11b(r.ServerArmed), c11b(r.ClientArmed), c11b(r.HasKey), r.RelayClientTimeout, c11b(r.RelayClientArmed))
+		if r.RelayErr == "skipped" {
+			out = fmt.Sprintf("srv=%d;cli=%d;srvarmed=%s;cliarmed=%s;key=%s;relay=skipped", r.ServerTimeout, r.ClientTimeout,
+				c11b(r.ServerArmed), c11b(r.ClientArmed), c11b(r.HasKey))
+		} else if r.RelayErr != "" {
+			out += ";relayerr"
+			c.violate("cfgtimeout:relay-handshake-failed", "the handshake through the relay failed", c11CfgDesc(a)+" :: "+r.RelayErr)
+		}
 		if r.Err != "" {
 			out = "err"
 			c.violate("cfgtimeout:handshake-failed", "the in-process handshake failed", c11CfgDesc(a)+" :: "+r.Err)
@@ -83,7 +92,11 @@ func genCfgTimeout(c *ctx) {
 			side  string
 			val   int
 			armed bool
-		}{{"server", r.ServerTimeout, r.ServerArmed}, {"client", r.ClientTimeout, r.ClientArmed}} {
+		}{{"server", r.ServerTimeout, r.ServerArmed}, {"client", r.ClientTimeout, r.ClientArmed},
+			{"client-behind-relay", r.RelayClientTimeout, r.RelayClientArmed}} {
+			if e.side == "client-behind-relay" && r.RelayErr != "" {
+				continue
+			}
 			if e.val != a.Timeout || e.armed != (a.Timeout > 0) {
 				c.violate(fmt.Sprintf("timeout-not-honoured:%d:%s", a.Timeout, e.side),
 					"after the real handshake an end does not work with the announced timeout (<= 0 means wait indefinitely: no timer may be armed)",
